@@ -5,6 +5,7 @@ import (
 	"fmt"
 	"sort"
 	"strings"
+	"unicode/utf8"
 
 	"go.lsp.dev/protocol"
 
@@ -342,14 +343,16 @@ func findTagAtPosition(tags []ast.Tag, pos protocol.Position) *hoverElement {
 			}
 		}
 
-		// Cursor is on tag value (after the colon)
+		// Cursor is on tag value (after the colon). The tag ends where its value ends and
+		// blanks may separate the colon from the value, so the value's range is measured
+		// back from the end; an empty value has an empty range.
 		return &hoverElement{
 			context: HoverTagValue,
 			rng: ast.Range{
 				Start: ast.Position{
-					Line:   tag.Range.Start.Line,
-					Column: colonCol + 1,
-					Offset: tag.Range.Start.Offset + len(tag.Name) + 1,
+					Line:   tag.Range.End.Line,
+					Column: tag.Range.End.Column - utf8.RuneCountInString(tag.Value),
+					Offset: tag.Range.End.Offset - len(tag.Value),
 				},
 				End: tag.Range.End,
 			},
